@@ -239,6 +239,10 @@ class X:
                     return coq, ty, []
             fail(e, "attribute self.%s" % e.attr)
         c, t, b = self.tx(e.value, env)
+        if t == "preocf" and e.attr == "ranks":
+            return c, ("wdict", "optint"), b
+        if t == "cond" and e.attr == "index":
+            return "(ckz %s)" % c, "int", b
         table = {("cond", "antecedence"): ("cante", "form"), ("cond", "consequence"): ("ccons", "form"),
                  ("bb", "conditionals"): ("bb_conditionals", ("dict", "cond")),
                  ("bb", "signature"): (None, "str"), ("bb", "name"): (None, "str"),
@@ -664,6 +668,16 @@ class X:
             if ts[0] is None or (isinstance(ts[0], tuple) and ts[0][0] in ("list", "dict", "set")):
                 return "(py_len %s)" % cs[0], "int", b      # an unknown type is left to Coq's type checker
             fail(e, "len of %r" % (ts[0],))
+        if name == "hasattr" and len(e.args) == 2 and isinstance(e.args[1], ast.Constant) and e.args[1].value == "index":
+            c, t, b = self.tx(e.args[0], env)
+            if t == "cond":
+                return "true", "bool", b        # every Conditional carries the attribute (set in __init__)
+            fail(e, "hasattr on %r" % (t,))
+        if name == "int" and len(e.args) == 1 and not e.keywords:
+            c, t, b = self.tx(e.args[0], env)
+            if t == "int":
+                return c, "int", b
+            fail(e, "int() of %r" % (t,))
         if name == "enumerate" and len(e.args) == 1 and not e.keywords:
             c, t, b = self.tx(e.args[0], env)
             if not (isinstance(t, tuple) and t[0] == "list"):
@@ -914,6 +928,24 @@ class X:
             if qt != "cond":
                 fail(e, "query_to_cnf of %r" % (qt,))
             return "(cnf_of_query %s)" % qc, ("tuple", (("list", "sclause"), ("list", "sclause"))), b + qb
+        if t == "preocf" and f.attr == "world_satisfies_conditionalization" and len(e.args) == 2 and not e.keywords:
+            fn = self.ctx.table.get("PreOCF.world_satisfies_conditionalization")
+            if fn is None or not fn.pure:
+                fail(e, "world_satisfies_conditionalization is not available as a plain definition")
+            wc, wt, wb = self.tx(e.args[0], env)
+            fc, ft, fb = self.tx(e.args[1], env)
+            if (wt, ft) != ("world", "form"):
+                fail(e, "world_satisfies_conditionalization of %r" % ((wt, ft),))
+            return "(%s n %s %s)" % (fn.coq, wc, fc), "bool", b + wb + fb
+        if t == "preocf" and f.attr == "rank_world" and len(e.args) == 1 and not e.keywords:
+            fn = self.ctx.table.get("PreOCF.rank_world")
+            wc, wt, wb = self.tx(e.args[0], env)
+            if fn is None or wt != "world":
+                fail(e, "rank_world of %r" % (wt,))
+            if fn not in self.ctx.fn.uses:
+                self.ctx.fn.uses.append(fn)
+            nm = self.ctx.fresh("r")
+            return nm, "int", b + wb + [(nm, "(%s %s)" % (fn.coq, wc), "call")]
         if t == "zopt" and f.attr == "check" and not e.args and not e.keywords:
             return "(o_check n %s)" % c, "bool", b
         if t == "zopt" and f.attr == "model" and not e.args and not e.keywords:
@@ -972,6 +1004,9 @@ def assigned(stmts):
                     e = e.elt
                 if isinstance(e, ast.Call) and isinstance(e.func, ast.Attribute) and isinstance(e.func.value, ast.Name):
                     add(e.func.value.id)
+                if isinstance(e, ast.Call) and isinstance(e.func, ast.Attribute) and isinstance(e.func.value, ast.Subscript) \
+                        and isinstance(e.func.value.value, ast.Name):
+                    add(e.func.value.value.id)
             elif isinstance(s, ast.For):
                 tgt(s.target)
                 walk(s.body)
@@ -1174,6 +1209,10 @@ class B:
                     tys = [self.ctx.fn.locals_[x.id] for x in t.elts]
                     c = "(" + ", ".join("([] : %s)" % coq_type(tt_) for tt_ in tys) + ")"
                     ty = ("tuple", tuple(tys))
+                if isinstance(t, ast.Name) and t.id in self.ctx.fn.locals_ and isinstance(s.value, ast.Call) and isinstance(s.value.func, ast.Name) \
+                        and s.value.func.id == "dict" and not s.value.args:
+                    ty = self.ctx.fn.locals_[t.id]
+                    c = "([] : %s)" % coq_type(ty)
                 if isinstance(t, ast.Name) and t.id in self.ctx.fn.locals_ and isinstance(s.value, ast.List) and not s.value.elts:
                     ty = self.ctx.fn.locals_[t.id]
                     c = "([] : %s)" % coq_type(ty)
@@ -1216,6 +1255,23 @@ class B:
                     binds_in(b)
                     env[name] = nt
                     let(v(name), code)
+                    continue
+                if (isinstance(e, ast.Call) and isinstance(e.func, ast.Attribute) and e.func.attr == "append" and len(e.args) == 1 and not e.keywords
+                        and isinstance(e.func.value, ast.Subscript) and isinstance(e.func.value.value, ast.Name) and e.func.value.value.id in env):
+                    dn = e.func.value.value.id
+                    dt = env[dn]
+                    if not (isinstance(dt, tuple) and dt[0] == "dict" and isinstance(dt[1], tuple) and dt[1][0] == "list"):
+                        fail(s, "append through a subscript of %r" % (dt,))
+                    if dn in self.ctx.captured:
+                        fail(s, "%s is mutated after it was stored elsewhere (aliasing)" % dn)
+                    kc, kt, kb = self.x.tx(e.func.value.slice, env)
+                    xc, xt, xb = self.x.tx(e.args[0], env)
+                    if kt != "int":
+                        fail(s, "dictionary key of type %r" % (kt,))
+                    env[dn] = ("dict", ("list", unify(dt[1][1], xt)))
+                    old = self.ctx.fresh()
+                    binds_in(kb + xb + [(old, "zdict_get %s %s" % (v(dn), kc), "cbind")])
+                    let(v(dn), "(zdict_set %s %s (%s ++ [%s]))" % (v(dn), kc, old, xc))
                     continue
                 if isinstance(e, ast.ListComp) and len(e.generators) == 2 and not e.generators[1].ifs:
                     g1, g2 = e.generators
@@ -1484,6 +1540,8 @@ class B:
             fail(s, "dictionary key of type %r" % (tk,))
         env[nm] = ("dict", unify(ty[1], tv))
         binds_in(bk + b)
+        if c == "[]" and ty[1] is not None:
+            c = "([] : %s)" % coq_type(ty[1])
         let(v(nm), "(zdict_set %s %s %s)" % (v(nm), k, c))
 
     def is_logging_if(self, s):
@@ -1532,7 +1590,7 @@ class B:
 
 # ------------------------------------------------------------------------------------------------ driver
 COQ_TYPES = {"bool": "bool", "int": "Z", "form": "form", "cond": "cond", "solver": "solver", "str": "unit", "none": "unit",
-             "bb": "pybase", "deadline": "unit", "wcnf": "wcnf", "sclause": "sclause", "optimizer": "unit", "tseitin": "unit", "world": "world", "zopt": "zopt", "optint": "(option Z)", "iterm": "iterm", "icon": "icon", "symidx": "symidx", "float": "unit"}
+             "bb": "pybase", "deadline": "unit", "wcnf": "wcnf", "sclause": "sclause", "optimizer": "unit", "tseitin": "unit", "world": "world", "zopt": "zopt", "optint": "(option Z)", "preocf": "(wdict (option Z))", "iterm": "iterm", "icon": "icon", "symidx": "symidx", "float": "unit"}
 
 
 def coq_type(t):
@@ -1674,6 +1732,7 @@ SCNF = ("list", "sclause")
 W_STATE = [("partition", "es_partition", PART_KEY), ("nf_cnf_dict", "es_nf_cnf_dict", ("dict", SCNF)),
            ("f_cnf_dict", "es_f_cnf_dict", ("dict", SCNF)), ("v_cnf_dict#query", "es_v_query", SCNF), ("f_cnf_dict#query", "es_f_query", SCNF)]
 
+TRIPLE = ("tuple", ("int", ("list", "int"), ("list", "int")))
 RANKS = [("@ranks", "at_ranks", ("wdict", "optint"))]
 Z3_CONSTS = {"sat": ("true", "bool", []), "unsat": ("false", "bool", [])}
 
@@ -1779,6 +1838,10 @@ TARGETS = [
     ]),
     dict(out="SrcOpt", file="inference/optimizer.py", requires=[], funcs=[
         Fn("remove_supersets", "py_remove_supersets", [("lst_of_sets", ("list", ("set", "int")))], locals_={"filtered": ("list", ("set", "int"))}),
+    ]),
+    dict(out="SrcCrev", file="inference/c_revision.py", requires=["SrcCond", "SrcOcf"], funcs=[
+        Fn("compile_alt", "py_compile_alt", [("ranking_function", "preocf"), ("revision_conditionals", ("list", "cond"))],
+           locals_={"vMin": ("dict", ("list", TRIPLE)), "fMin": ("dict", ("list", TRIPLE)), "acc_list": ("list", "int"), "rej_list": ("list", "int")}),
     ]),
     dict(out="SrcP", file="inference/p_entailment.py", requires=["SrcCond", "SrcCons"], funcs=[
         Fn("_inference", "py_PEntailment_inference", [("query", "cond"), ("weakly", "bool"), ("deadline", "deadline")],
